@@ -102,7 +102,9 @@ def build(case, given=None, extra=True, defaults_distinct=False, wrap=False):
         elif kind == 'glob2':
             schema[name] = {'*': {'pool': {'*': {x['v'][3]: {'_default': 0, '_emit': True}
                                                  for x in pvars}}}}
-        if port['t'] == 'path':
+        if port['t'] == 'omit':
+            pass       # the topology does not mention the port
+        elif port['t'] == 'path':
             topo[name] = tuple(port['p'])
         elif port['t'] == 'gdict':
             d = {'_path': tuple(port['p'])}
